@@ -56,6 +56,9 @@ type c11Variant struct {
 }
 
 // wrapExprs wraps up to n expression nodes of src in immediately invoked function literals.
+// c11OnlyDefineRHS restricts c11WrapExprs to whole right-hand sides of ':=' (workers are single-threaded).
+var c11OnlyDefineRHS bool
+
 func c11WrapExprs(src string, rng *rand.Rand, n int) (string, int) {
 	f, err := parseSrc([]byte(src))
 	if err != nil {
@@ -66,8 +69,12 @@ func c11WrapExprs(src string, rng *rand.Rand, n int) (string, int) {
 	var spans []span
 	var walkE func(e parser.Expr, ok bool)
 	var walkS func(s parser.Stmt)
+	defineRHS := map[parser.Expr]bool{}
 	add := func(e parser.Expr) {
 		if _, isImport := e.(*parser.ImportExpr); isImport {
+			return
+		}
+		if c11OnlyDefineRHS && !defineRHS[e] {
 			return
 		}
 		a, b := int(e.Pos())-base, int(c11ExprEnd(e))-base
@@ -186,6 +193,9 @@ func c11WrapExprs(src string, rng *rand.Rand, n int) (string, int) {
 					// `f := func...` makes f visible inside the literal; wrapping would change that
 					walkE(rr, false)
 				} else {
+					if x.Token.String() == ":=" {
+						defineRHS[rr] = true
+					}
 					walkE(rr, true)
 				}
 			}
@@ -251,6 +261,11 @@ func c11WrapExprs(src string, rng *rand.Rand, n int) (string, int) {
 	sort.Slice(chosen, func(i, j int) bool { return chosen[i].a > chosen[j].a })
 	out := src
 	for _, s := range chosen {
+		if c11OnlyDefineRHS {
+			// the bare spelling (an initialiser is never at the start of a statement or in a header)
+			out = out[:s.a] + "func() { return " + out[s.a:s.b] + " }()" + out[s.b:]
+			continue
+		}
 		out = out[:s.a] + "(func() { return " + out[s.a:s.b] + " })()" + out[s.b:]
 	}
 	return out, len(chosen)
@@ -420,7 +435,26 @@ var c11NameRe = regexp.MustCompile(`^(v|f|p|r|i|k|e|c|t|n|inc|rec|acc|mk|me|q|z)
 
 func c11Renamable(id string) bool { return c11NameRe.MatchString(id) }
 
+// selfRefProbe: `f := func...` makes f visible inside the literal, but only when the literal is the
+// whole right-hand side: wrapped in an immediately-invoked function literal the definition no longer
+// compiles. Exact input, listed as a known finding (the random wraps leave such literals alone).
+func (c *c11) selfRefProbe(r *fw.Rec) {
+	p := "fib := func(n) { return n < 2 ? n : fib(n-1) + fib(n-2) }\nr := fib(6)\n"
+	v := "fib := (func() { return func(n) { return n < 2 ? n : fib(n-1) + fib(n-2) } })()\nr := fib(6)\n"
+	a := runEngine([]byte(p), engineOpts{Budget: 1_000_000})
+	b := runEngine([]byte(v), engineOpts{Budget: 1_000_000})
+	r.EvalN(2)
+	r.Inc("self-reference-probe")
+	if a.Phase != b.Phase || a.Globals["r"] != b.Globals["r"] {
+		r.Violate("iife:self-referencing-function-definition", "wrapping the function literal of a self-recursive definition in an immediately-invoked function literal changes the outcome",
+			map[string]interface{}{"P": p, "variant": v, "P_outcome": a.Phase + ": " + a.Err + " r=" + a.Globals["r"], "variant_outcome": b.Phase + ": " + b.Err + " r=" + b.Globals["r"]})
+	}
+}
+
 func (c *c11) RunCase(r *fw.Rec, cs fw.Case) {
+	if cs.Index == 0 {
+		c.selfRefProbe(r)
+	}
 	rng := cs.Rng("c11")
 	opts := gen.Options{MaxStmts: 4 + rng.Intn(16), MaxDepth: 2 + rng.Intn(3), ClosureHeavy: true, CallDefined: rng.Intn(2) == 0}
 	if rng.Intn(4) == 0 {
@@ -531,6 +565,14 @@ func (c *c11) RunCase(r *fw.Rec, cs fw.Case) {
 			vars = append(vars, c11Variant{name: fmt.Sprintf("iife-x%d", n), src: w, file: "(main)"})
 		}
 	}
+	// T3b: the whole initialiser of every ':=' wrapped (the new variable is not visible inside its own initialiser)
+	c11OnlyDefineRHS = true
+	if w, n := c11WrapExprs(src, rng, 1000); n > 0 {
+		vars = append(vars, c11Variant{name: fmt.Sprintf("iife-x%d", n), src: w, file: "(main)"})
+		vars = append(vars, c11Variant{name: "iife+in-function", src: "res__ := (func() {\n" + w + "\nreturn " + resMap + "\n})()\n", result: "res__", lineShift: 1, file: "(main)"})
+		r.Inc("variant:iife-define-rhs")
+	}
+	c11OnlyDefineRHS = false
 	// T4: renaming
 	rs, back := c11Rename(src, top)
 	vars = append(vars, c11Variant{name: "renamed", src: rs, rename: back, file: "(main)"})
